@@ -36,6 +36,15 @@ class DeviceConfiguration(RequestResponse[DeviceConfigurationAck]):
         """Build knxipframe (within derived class) and send via UDP."""
         self._transport.send(self._create_knxipframe(), addr=self.data_endpoint_addr)
 
+    def _answers_request(self, body: DeviceConfigurationAck) -> bool:
+        """Only the ACK repeating the channel id and sequence counter of the request confirms it."""
+        return (
+            body.communication_channel_id
+            == self.device_configuration_request.communication_channel_id
+            and body.sequence_counter
+            == self.device_configuration_request.sequence_counter
+        )
+
     def _create_knxipframe(self) -> KNXIPFrame:
         """Create KNX/IP Frame object to be sent to device."""
         return KNXIPFrame.init_from_body(self.device_configuration_request)
